@@ -377,3 +377,52 @@ def r6(cx):
     ws = [fl for fl in adt["variants"][0]["fields"] if fl[0] == "write_set"]
     cx.check(ws and not ws[0][2], "Transaction.write_set is not a public field", "write-set-public", "%s:%d" % (adt["file"], adt["line"]))
     who_calls(cx, ["Core::commit"], {"Transaction::commit"}, "Core::commit callers", "who:corecommit")
+
+
+@rule("C08", "C08.R3", "pending-write replace-or-push decision table equals the oracle")
+def r3(cx):
+    from ..e3 import Region, name_of
+    f = cx.f
+    b = f.body("Transaction::write")
+    leaves = Region(b, 0, marks={"push": "push", "last_mut": "replace", "VacantEntry::insert": "insert_new"}).run()
+    rows = []
+    bad = []
+    n = 0
+    for lf in leaves:
+        if lf.ret is None or not name_of(lf.ret).startswith("Result::Ok"):
+            continue
+        c = {}
+        for a, v in lf.cond.items():
+            if a.startswith("variant(entry("):
+                c["occupied"] = (v == "0")  # btree_map::Entry: Vacant = 0? resolved below by marks
+                c["entry_variant"] = v
+            elif a.startswith("variant(last("):
+                c["has_last"] = (v == "Some")
+            elif a.startswith("rel(last(") and "savepoint_no" in a:
+                c["same_savepoint"] = (v == "eq")
+            elif a.startswith("rel(0,last("):
+                c["last_explicit"] = (v != "eq")
+            elif a.startswith("rel(0,p2.timestamp"):
+                c["new_explicit"] = (v != "eq")
+            elif a.startswith("rel(last(") and "timestamp" in a:
+                c["same_ts"] = (v == "eq")
+        act = "insert_new" if "insert_new" in lf.marks else ("push" if "push" in lf.marks else ("replace" if "replace" in lf.marks else "nothing"))
+        n += 1
+        if act == "insert_new":
+            want = "insert_new"
+        elif c.get("has_last") is False:
+            want = "push"
+        elif c.get("same_savepoint") is False:
+            want = "push"
+        elif c.get("last_explicit") and c.get("new_explicit") and c.get("same_ts") is False:
+            want = "push"
+        else:
+            want = "replace"
+        rows.append([str({k: v for k, v in sorted(c.items()) if k != "occupied"}), act, want])
+        if act != want:
+            bad.append(rows[-1])
+    cx.table("Transaction::write replace-or-push", rows)
+    cx.check(not bad and n >= 8, "new savepoint => push; same savepoint with two different explicit timestamps => push; otherwise the last pending write is replaced (%d rows)" % n,
+             "replace-or-push", b.where(), "Transaction::write decision differs from the oracle: %s" % bad[:3])
+    acts = {r[1] for r in rows}
+    cx.check({"push", "replace", "insert_new"} <= acts, "all three actions occur in the table", "replace-or-push-actions", b.where())
